@@ -31,7 +31,7 @@ LEAN_MODULES = ["NiftyVerif.Core.Proto", "NiftyVerif.Model.RVec", "NiftyVerif.Pr
 DRIVER = "Driver/C16.lean"
 OBLIGATIONS = ["NiftyVerif.C16." + t for t in (
     "descent_monotone", "descent_status",
-    "ls_success_wolfe", "ls_success_wolfe_fun", "ls_returns_evaluated_point",
+    "ls_success_wolfe", "ls_success_wolfe_fun", "ls_success_strict_decrease", "ls_returns_evaluated_point",
     "vl_eq_two_loop", "buffer_window", "vl_eq_lbfgs_direction",
     "store_gram", "store_invariant_step", "vl_run_eq_lbfgs_run",
 )]
